@@ -240,7 +240,7 @@ def run(chk):
             for n in range(0, nmax + 1):
                 if name in ("p_canonization", "n_canonization", "npn_canonization") and n > (3 if chk.tier == "quick" else 5):
                     continue
-                if name == "npn_canonization" and n > (3 if chk.tier == "quick" else 4):
+                if name == "npn_canonization" and n > 3:
                     continue
                 vals = [api.valid_values(c, n) for c in cls]
                 for combo in itertools.product(*vals):
